@@ -6,7 +6,7 @@ VARIABLES stage, combo
 vars == <<stage, combo>>
 Fields == <<"decay", "irf", "glob", "baseline", "osc", "artifact", "nds", "scale">>
 Options(f) == CASE f = "decay" -> {"sequential", "parallel", "general"}
-                [] f = "irf" -> {"none", "gaussian", "dispersed"}
+                [] f = "irf" -> {"none", "gaussian", "dispersed", "mixed"}   \* mixed: dispersed (index dependent) for all datasets but the last, plain gaussian for the last
                 [] f = "glob" -> {"clp", "spectral"}
                 [] f = "baseline" -> {"no", "yes"}
                 [] f = "osc" -> {"no", "yes"}
@@ -23,6 +23,7 @@ Complete == stage = Len(Fields) + 1
 (* a coherent artifact needs an IRF; a spectral global model (full-model simulation pairs columns by label) *)
 (* is combined with decay megacomplexes only                                                               *)
 Valid == Complete /\ (combo["artifact"] = "yes" => combo["irf"] # "none")
+                  /\ (combo["irf"] = "mixed" => combo["nds"] # "1")
                   /\ (combo["glob"] = "spectral" => (combo["baseline"] = "no" /\ combo["osc"] = "no" /\ combo["artifact"] = "no" /\ combo["nds"] = "1"))
 NMegacomplexes == 1 + (IF combo["baseline"] = "yes" THEN 1 ELSE 0) + (IF combo["osc"] = "yes" THEN 1 ELSE 0) + (IF combo["artifact"] = "yes" THEN 1 ELSE 0)
                     + (IF combo["glob"] = "spectral" THEN 1 ELSE 0)
